@@ -77,12 +77,12 @@ theorem mkArr_nd (d : Nat) (cs : List Cell) : mkArr (.nd d cs) = .error .ValueEr
   simp only [mkArr]; split <;> rfl
 
 theorem mk_eq (d : Data) :
-    mk d = match toArrCtor d with
+    mk d = match toArr d with
       | none => none
       | some (.error e) => some (.error e)
       | some (.ok a) => some (mkArr a) := by
   unfold mk
-  cases toArrCtor d with
+  cases toArr d with
   | none => rfl
   | some r => cases r <;> rfl
 
